@@ -482,9 +482,11 @@ class Interp:
         if isinstance(cls, type) and issubclass(cls, BaseException):
             init = self.class_attr(cls, '__init__')
             e = VExc(cls, args)
-            if isinstance(init, types.FunctionType) and SOURCES.node_of(init) is not None and not kwargs:
-                # run the repo-defined exception __init__ for its attribute assignments (best effort)
-                pass
+            if isinstance(init, types.FunctionType) and SOURCES.node_of(init) is not None:
+                # repository-defined exception __init__: run it for its attribute assignments
+                for s1, r in self.call(st, VConst(init), [e] + list(args), kwargs, node):
+                    yield s1, (r if isinstance(r, Raise) else e)
+                return
             yield st, e
             return
         handler = self.bm.TYPE_MODELS.get(cls)
@@ -1763,7 +1765,8 @@ class Interp:
         if isinstance(op, ast.Mod) and isinstance(a, (VStr, VBytes)) and a.concrete:
             yield from self.alts(st, ops.fmt_percent(a, b, st))       # %-formatting (keeps byte-segment structure)
             return
-        if isinstance(a, VSegs) or isinstance(b, VSegs):
+        if (isinstance(a, VSegs) or isinstance(b, VSegs)) or \
+                (isinstance(op, ast.Add) and isinstance(a, VBytes) and isinstance(b, VBytes) and not (a.concrete and b.concrete)):
             sa, sb = segs_of(a), segs_of(b)
             if isinstance(op, ast.Add) and sa is not None and sb is not None:
                 yield st, from_segs(sa + sb)
@@ -1842,6 +1845,13 @@ class Interp:
             m = self.class_attr(st.heap[a.addr].cls, nm)
             if m is not None:
                 yield from self.call(st, VConst(m), [a, b], {}, node)
+                return
+        if isinstance(b, VRef) and isinstance(st.heap[b.addr], HObj) and not isinstance(a, VRef):
+            # reflected comparison: int < obj  ->  obj.__gt__(int)
+            nm = {ast.Lt: '__gt__', ast.LtE: '__ge__', ast.Gt: '__lt__', ast.GtE: '__le__'}[type(op)]
+            m = self.class_attr(st.heap[b.addr].cls, nm)
+            if m is not None:
+                yield from self.call(st, VConst(m), [b, a], {}, node)
                 return
         if isinstance(a, VRef) or isinstance(b, VRef):
             raise Unsupported("ordering on heap objects", node)
